@@ -1,7 +1,8 @@
+use c20::global::{GCase, GInit, GObs};
 use c20::{Case, InitSpec, ObsSpec};
 use vcore::proptest::prelude::*;
 
-const RULE: &str = "a case is a workload on a fresh AmbientSlot: K in 0..=16 initialiser threads (each owning five components tagged with its index; method = Setup::try_init_slot | Setup::init_slot | AmbientSlot::init; generated spin skew; optionally emitting through its handle when it wins) and M in 0..=16 observer threads (generated skew, 1..=6 rounds of { poll is_enabled, emit an event, open+complete a span, blocking_flush } through slot.get(), generated polling budget and gaps), released together by a spin barrier; the main thread uses the slot before any thread starts and after all have joined. The schedule is whatever the OS scheduler produces (sampling, not enumeration). Non-trivial = at least 2 racing initialisers and at least 1 concurrent observer.";
+const RULE: &str = "a case is a workload on a fresh AmbientSlot: K in 0..=16 initialiser threads (each owning five components tagged with its index; method = Setup::try_init_slot | Setup::init_slot | AmbientSlot::init; generated spin skew; optionally emitting through its handle when it wins) and M in 0..=16 observer threads (generated skew, 1..=6 rounds of { poll is_enabled, emit an event, open+complete a span, blocking_flush } through slot.get(), generated polling budget and gaps), released together by a spin barrier; the main thread uses the slot before any thread starts and after all have joined. The schedule is whatever the OS scheduler produces (sampling, not enumeration). Second generator (global-slots): the same kind of workload against the two PROCESS-GLOBAL slots (emit::runtime::shared() via setup().init()/try_init(), internal() via init_internal()/try_init_internal() with AssertInternal components), one child process per case (this binary re-executed with a hidden argument, case on stdin, JSON report on stdout): K in 0..=12 initialisers, M in 0..=12 observers that take a &'static runtime reference EARLY (before the barrier, i.e. before initialisation) and use it afterwards and/or resolve a fresh reference at each use and/or use the macros' default path (emit! without rt:), with optional user code running INSIDE emit (a slow ToEvent, a slow when: filter) so that initialisation can complete while an emit is in flight; the main thread uses a fresh and an early reference before and after the race. Non-trivial = at least 2 racing initialisers and at least 1 concurrent observer (slot-race); at least 1 initialiser and 1 observer (global-slots).";
 
 fn skew() -> impl Strategy<Value = u16> {
     prop_oneof![
@@ -43,7 +44,35 @@ fn case() -> impl Strategy<Value = Case> {
     (k, m).prop_flat_map(|(k, m)| (prop::collection::vec(init_spec(), k..=k), prop::collection::vec(obs_spec(), m..=m)).prop_map(|(inits, observers)| Case { inits, observers }))
 }
 
+fn ginit() -> impl Strategy<Value = GInit> {
+    // initialisers start a little later than the observers so that observers are mid-emit when init lands
+    (0u8..2, skew(), any::<bool>()).prop_map(|(method, skew, post_emit)| GInit { method, skew: skew.saturating_add(200), post_emit })
+}
+
+fn gobs() -> impl Strategy<Value = GObs> {
+    (
+        (0u8..4, skew(), 1u8..=6),
+        prop_oneof![2 => Just(0u16), 2 => 0u16..200, 1 => 200u16..5000],
+        prop_oneof![3 => Just(0u16), 2 => 0u16..100, 1 => 0u16..2000],
+        // user code inside emit: none, or 30..3000 spin iterations (roughly 0.1..10 us)
+        prop_oneof![2 => Just(0u16), 3 => 30u16..600, 2 => 600u16..3000],
+        prop::bool::weighted(0.5),
+        prop::bool::weighted(0.4),
+    )
+        .prop_map(|((ref_mode, skew, iters), poll, gap, inner_spin, do_span, do_flush)| GObs { ref_mode, skew, iters, poll, gap, inner_spin, do_span, do_flush })
+}
+
+fn gcase() -> impl Strategy<Value = GCase> {
+    let k = prop_oneof![1 => Just(0usize), 6 => Just(1usize), 8 => 2usize..=4, 4 => 5usize..=12];
+    let m = prop_oneof![1 => Just(0usize), 10 => 1usize..=4, 9 => 5usize..=12];
+    (0u8..2, k, m).prop_flat_map(|(slot, k, m)| (prop::collection::vec(ginit(), k..=k), prop::collection::vec(gobs(), m..=m)).prop_map(move |(inits, observers)| GCase { slot, inits, observers }))
+}
+
 fn main() {
+    // hidden sub-command: one workload on this process's global slot (see global.rs)
+    if std::env::args().nth(1).as_deref() == Some(c20::global::CHILD_ARG) {
+        c20::global::child_main();
+    }
     vcore::run(
         "C20",
         vcore::Level::Exploration,
@@ -53,6 +82,7 @@ fn main() {
             "an observer's emit issued before that observer has seen is_enabled() == true may or may not be delivered (initialisation can complete in between): don't-care, only its consistency is checked",
             "dropping the components of a losing initialiser is not an invocation of them",
             "each event is attributed to the filter consulted last on the emitting thread (emit is synchronous: filter, then emitter, on the caller's thread) and span events to the rng that produced the trace id shown to the filter when the span began",
+            "global slots: an operation through a runtime reference taken BEFORE initialisation is either not delivered at all or delivered coherently (all of the winner's components); it is never required to be delivered. Operations through a fresh reference (or the macro default path) issued after is_enabled() was seen must be delivered. An event emitted with a call-site when: filter legitimately bypasses the winner's filter (the other components must still be the winner's). Class global:emit-straddles-init = some emit started before the thread had seen is_enabled() and is_enabled() was true right after it returned (initialisation completed while it was in flight or just around it): diagnostic only",
             "at most 3 cases run concurrently (each has up to 33 threads) to bound oversubscription; when a failure is replayed or shrunk the workload is re-run up to 200 times because the schedule is not part of the case",
         ],
         |s| {
@@ -63,6 +93,12 @@ fn main() {
             s.require("raw-AmbientSlot-init", 5000);
             s.require("observed-both-sides-of-init", 1000);
             s.gen("slot-race", s.n(100_000, 4_000_000), case, c20::check);
+            // the two process-global slots: one child process per case
+            s.require("global:shared", 300);
+            s.require("global:internal", 300);
+            s.require("global:early-reference-used-after-init", 300);
+            s.require("global:emit-straddles-init", 100);
+            s.gen("global-slots", s.n(3_000, 60_000), gcase, c20::global::check_global);
         },
     )
 }
